@@ -47,14 +47,14 @@ def boundary_interrupting (cfg : Cfg) : Prop :=
   ∀ (kinds : List Bool) (s1 : St) (i : Nat) (l : Listener), Reach cfg kinds s1 →
     s1.req = .pending → s1.ls[i]? = some l → l.interrupting = true → l.phase = .armed → 0 < l.inbox →
     ∀ (tr : List Label) (s2 : St), run cfg s1 (.catchTake i :: tr) = some s2 →
-      contsAt s2 i ≤ 1 ∧ (quiet s2 = true → contsAt s2 i = 1) ∧ s2.normal = 0
+      contsAt s2 i ≤ 1 ∧ (quiet cfg s2 = true → contsAt s2 i = 1) ∧ s2.normal = 0
 
 def boundary_non_interrupting (cfg : Cfg) : Prop :=
-  ∀ (kinds : List Bool) (s : St), Reach cfg kinds s → quiet s = true →
+  ∀ (kinds : List Bool) (s : St), Reach cfg kinds s → quiet cfg s = true →
     (∀ l ∈ s.ls, l.interrupting = false → l.conts = l.got) ∧ (Req.answered.rank ≤ s.req.rank → s.normal = 1)
 
 def boundary_inert_after_completion (cfg : Cfg) : Prop :=
-  ∀ (kinds : List Bool) (s : St), Reach cfg kinds s → quiet s = true → s.req = .done →
+  ∀ (kinds : List Bool) (s : St), Reach cfg kinds s → quiet cfg s = true → s.req = .done →
     (∀ (tr : List Label) (s' : St), run cfg s tr = some s' → s' = s) ∧ wgListeners cfg s = 0
 
 /-- the full property, kept visible: it does NOT hold of the code (see the counterexamples) -/
@@ -64,40 +64,69 @@ def C10_statement (cfg : Cfg) : Prop :=
 /-! ## D7: the cancel never stops the normal flow -/
 
 /-- whatever the listeners, the once and the activity's run loop did: a host that waits for its answer continues on
-its normal flow when answered -/
-theorem normal_flow_unstoppable (cfg : Cfg) (s : St) (h : s.req = .pending) :
-    ∃ s', run cfg s [.answer, .respond, .forward, .hostTake] = some s' ∧ s'.normal = s.normal + 1 := by
-  refine ⟨{ s with req := .done, clearPending := true, normal := s.normal + 1 }, ?_, rfl⟩
-  simp [run, step, h]
+its normal flow when answered (in the late-activation order the harness may still have to execute its second
+statement before its forwarder exists) -/
+theorem normal_flow_unstoppable (cfg : Cfg) (kinds : List Bool) (s : St) (hr : Reach cfg kinds s) (h : s.req = .pending) :
+    ∃ tr s', run cfg s (.answer :: .respond :: tr ++ [.forward, .hostTake]) = some s' ∧ s'.normal = s.normal + 1 := by
+  have g := reach_ginv hr
+  have h3 := g.stage3 (by rw [h]; simp [Req.rank])
+  have h2 := g.stage2
+  by_cases hst : s.hStage = 2
+  · refine ⟨[], { s with req := .done, clearPending := true, normal := s.normal + 1 }, ?_, rfl⟩
+    simp [run, step, h, hst]
+  · have he : cfg.early = false := by
+      cases he : cfg.early with
+      | false => rfl
+      | true => rw [he] at h3; simp at h3; exact absurd h3 hst
+    have h1 : s.hStage = 1 := by rw [he] at h3; simp at h3; omega
+    refine ⟨[.harnessActive],
+      ({ s with req := .done, clearPending := true, normal := s.normal + 1, hStage := 2, hActive := true } : St), ?_, rfl⟩
+    simp [run, step, h, h1, he]
 
 /-- for every schedule: once the host was answered, at quiescence the normal flow has continued -/
-theorem answered_then_normal (cfg : Cfg) (kinds : List Bool) (s : St) (hr : Reach cfg kinds s) (hq : quiet s = true)
+theorem answered_then_normal (cfg : Cfg) (kinds : List Bool) (s : St) (hr : Reach cfg kinds s) (hq : quiet cfg s = true)
     (ha : Req.answered.rank ≤ s.req.rank) : s.normal = 1 := by
-  have hn := (reach_ginv hr).normal
-  unfold quiet at hq
-  simp only [Bool.and_eq_true] at hq
-  have h1 := hq.1.1.1.1
+  have g := reach_ginv hr
+  have hn := g.normal
+  obtain ⟨_, q2, q3⟩ := quiet_req cfg s hq
   cases hreq : s.req <;> simp_all [Req.rank]
+  -- responded: the forwarder exists (both activation statements ran) or the second one is still enabled
+  exfalso
+  have hf := quiet_no_internal cfg s hq .forward rfl
+  have h1 := quiet_no_internal cfg s hq .harnessActive rfl
+  have h3 := g.stage3 (by rw [hreq]; simp [Req.rank])
+  have h2 := g.stage2
+  simp only [step, hreq] at hf h1
+  cases he : cfg.early with
+  | true => rw [he] at h3; simp at h3; simp [h3] at hf
+  | false =>
+    rw [he] at h3; simp at h3
+    have : s.hStage = 1 ∨ s.hStage = 2 := by omega
+    rcases this with h | h <;> simp [h, he] at hf h1
 
-def d7pre : List Label := [.activate, .harnessActive, .harnessCall, .taskTake, .reqStart, .arm 0, .deliver 0]
+/-- the harness's two activation statements, in the order of the source -/
+def activation (cfg : Cfg) : List Label :=
+  if cfg.early then [.harnessActive, .harnessCall] else [.harnessCall, .harnessActive]
+
+def d7pre (cfg : Cfg) : List Label := .activate :: activation cfg ++ [.taskTake, .reqStart, .arm 0, .deliver 0]
 def d7post : List Label := [.transform 0, .taskTake, .move 0, .answer, .respond, .forward, .hostTake, .clear, .decrement]
 
 /-- the witness run, as a computation -/
 def d7check (cfg : Cfg) : Bool :=
-  match run cfg (init [true]) d7pre with
+  match run cfg (init [true]) (d7pre cfg) with
   | some s1 =>
     s1.req == .pending &&
     (match s1.ls[0]? with
      | some l => l.interrupting && l.phase == .armed && decide (0 < l.inbox)
      | none => false) &&
     (match run cfg s1 (.catchTake 0 :: d7post) with
-     | some s2 => s2.normal == 1 && contsAt s2 0 == 1 && quiet s2
+     | some s2 => s2.normal == 1 && contsAt s2 0 == 1 && quiet cfg s2
      | none => false)
   | none => false
 
 theorem d7check_all : ∀ cfg : Cfg, d7check cfg = true := by
-  intro ⟨g, o, r, sh⟩
-  cases g <;> cases o <;> cases r <;> cases sh <;> decide
+  intro ⟨g, o, r, sh, e⟩
+  cases g <;> cases o <;> cases r <;> cases sh <;> cases e <;> decide
 
 /-- D7, for EVERY value of the extracted facts: one interrupting boundary event, the event arrives while the task
 waits, the exception flow continues — and the normal flow continues as well when the task is answered afterwards -/
@@ -105,7 +134,7 @@ theorem C10_counterexample_interrupting (cfg : Cfg) : ¬ boundary_interrupting c
   intro h
   have hc := d7check_all cfg
   unfold d7check at hc
-  cases h1 : run cfg (init [true]) d7pre with
+  cases h1 : run cfg (init [true]) (d7pre cfg) with
   | none => simp [h1] at hc
   | some s1 =>
     simp only [h1, Bool.and_eq_true, beq_iff_eq] at hc
@@ -124,9 +153,9 @@ theorem C10_counterexample_interrupting (cfg : Cfg) : ¬ boundary_interrupting c
 /-- with the once, at quiescence every listener is unstarted, armed, or has moved on: none is stuck between the
 match and the continuation -/
 theorem exception_progress (cfg : Cfg) (hc : cfg.once = true) (kinds : List Bool) (s : St) (hr : Reach cfg kinds s)
-    (hq : quiet s = true) (i : Nat) (l : Listener) (hl : s.ls[i]? = some l) :
+    (hq : quiet cfg s = true) (i : Nat) (l : Listener) (hl : s.ls[i]? = some l) :
     l.phase = .idle ∨ l.phase = .armed ∨ l.phase = .moved := by
-  obtain ⟨_, q2, q3, q4⟩ := quiet_listener s hq i l hl
+  obtain ⟨_, q2, q3, q4⟩ := quiet_listener cfg s hq i l hl
   cases hp : l.phase with
   | idle => exact Or.inl rfl
   | armed => exact Or.inr (Or.inl rfl)
@@ -142,21 +171,29 @@ theorem exception_progress (cfg : Cfg) (hc : cfg.once = true) (kinds : List Bool
       unfold nc
       exact List.countP_pos_iff.mpr ⟨_, hmem, rfl⟩
     have hne : s.tq ≠ [] := by intro e; rw [e] at hmem; cases hmem
-    unfold quiet at hq
-    simp only [Bool.and_eq_true, Bool.not_eq_true', Bool.and_eq_false_iff, Bool.not_eq_false'] at hq
-    obtain ⟨⟨⟨⟨h1, h2⟩, _⟩, _⟩, _⟩ := hq
     rcases ho.alive hnc with ht | hreq
-    · rcases h2 with h2 | h2
+    · rcases quiet_tq cfg s hq with h2 | h2
       · rw [ht] at h2; cases h2
-      · exact hne (List.isEmpty_iff.mp h2)
-    · cases hr : s.req <;> simp [hr, Req.rank] at h1 hreq
+      · exact hne h2
+    · -- the token is at the harness: one of its activation statements is enabled
+      have h1 := quiet_no_internal cfg s hq .harnessActive rfl
+      have h2 := quiet_no_internal cfg s hq .harnessCall rfl
+      have g := reach_ginv hr
+      have h3 := g.stage2
+      have h4 : s.hStage ≠ 2 := by
+        intro h
+        have := g.stage4 h
+        rw [hreq] at this; simp [Req.rank] at this
+      simp only [step, hreq] at h1 h2
+      have : s.hStage = 0 ∨ s.hStage = 1 := by omega
+      cases he : cfg.early <;> rcases this with h | h <;> simp [h, he] at h1 h2
 
 /-- what remains true of `boundary_interrupting`: the exception flow continues exactly once (never twice on any
 schedule; once at quiescence) -/
 theorem interrupting_partial (cfg : Cfg) (hc : cfg.once = true) (kinds : List Bool) (s1 : St) (i : Nat) (l : Listener)
     (hr : Reach cfg kinds s1) (hl : s1.ls[i]? = some l) (hp : l.phase = .armed) (hin : 0 < l.inbox)
     (tr : List Label) (s2 : St) (hrun : run cfg s1 (.catchTake i :: tr) = some s2) :
-    contsAt s2 i ≤ 1 ∧ (quiet s2 = true → contsAt s2 i = 1) := by
+    contsAt s2 i ≤ 1 ∧ (quiet cfg s2 = true → contsAt s2 i = 1) := by
   have hr2 : Reach cfg kinds s2 := reach_run hr _ hrun
   -- the step itself: the listener fires
   rw [run_cons] at hrun
@@ -181,20 +218,20 @@ theorem interrupting_partial (cfg : Cfg) (hc : cfg.once = true) (kinds : List Bo
 
 /-! ## Non-interrupting: only the first event -/
 
-def d2run : List Label :=
-  [.activate, .harnessActive, .harnessCall, .taskTake, .reqStart, .arm 0, .deliver 0, .catchTake 0, .transform 0, .move 0,
+def d2run (cfg : Cfg) : List Label :=
+  .activate :: activation cfg ++ [.taskTake, .reqStart, .arm 0, .deliver 0, .catchTake 0, .transform 0, .move 0,
    .deliver 0, .catchTake 0]
 
 def d2check (cfg : Cfg) : Bool :=
-  match run cfg (init [false]) d2run with
-  | some s => quiet s && (match s.ls[0]? with
+  match run cfg (init [false]) (d2run cfg) with
+  | some s => quiet cfg s && (match s.ls[0]? with
       | some l => !l.interrupting && l.got == 2 && l.conts == 1
       | none => false)
   | none => false
 
 theorem d2check_all : ∀ cfg : Cfg, d2check cfg = true := by
-  intro ⟨g, o, r, sh⟩
-  cases g <;> cases o <;> cases r <;> cases sh <;> decide
+  intro ⟨g, o, r, sh, e⟩
+  cases g <;> cases o <;> cases r <;> cases sh <;> cases e <;> decide
 
 /-- for every value of the facts: two events on a non-interrupting boundary event while the host waits continue the
 exception flow once, not twice (the catch event is not re-armed) -/
@@ -202,7 +239,7 @@ theorem C10_counterexample_second_event (cfg : Cfg) : ¬ boundary_non_interrupti
   intro h
   have hc := d2check_all cfg
   unfold d2check at hc
-  cases h1 : run cfg (init [false]) d2run with
+  cases h1 : run cfg (init [false]) (d2run cfg) with
   | none => simp [h1] at hc
   | some s =>
     simp only [h1, Bool.and_eq_true] at hc
@@ -219,24 +256,22 @@ theorem C10_counterexample_second_event (cfg : Cfg) : ¬ boundary_non_interrupti
 has continued on its normal flow. So `boundary_non_interrupting` holds exactly for the runs in which no event
 was dropped. -/
 theorem non_interrupting_partial (cfg : Cfg) (hc : cfg.once = true) (kinds : List Bool) (s : St)
-    (hr : Reach cfg kinds s) (hq : quiet s = true) :
+    (hr : Reach cfg kinds s) (hq : quiet cfg s = true) :
     (∀ l ∈ s.ls, l.conts + l.dropped = l.got) ∧ (Req.answered.rank ≤ s.req.rank → s.normal = 1) := by
   refine ⟨?_, answered_then_normal cfg kinds s hr hq⟩
   intro l hl
   obtain ⟨i, hi⟩ := List.mem_iff_getElem?.mp hl
   have hinv := reach_linv hr l hl
-  obtain ⟨q1, _, _, _⟩ := quiet_listener s hq i l hi
+  obtain ⟨q1, _, _, _⟩ := quiet_listener cfg s hq i l hi
   rw [hinv.1, hinv.2, q1]
   rcases exception_progress cfg hc kinds s hr hq i l hi with h | h | h <;> simp [h, LPhase.rank] <;> omega
 
 /-! ## After completion -/
 
-theorem quiet_done_inactive (cfg : Cfg) (kinds : List Bool) (s : St) (hr : Reach cfg kinds s) (hq : quiet s = true)
+theorem quiet_done_inactive (cfg : Cfg) (kinds : List Bool) (s : St) (hr : Reach cfg kinds s) (hq : quiet cfg s = true)
     (hd : s.req = .done) : s.hActive = false := by
   have g := reach_ginv hr
-  unfold quiet at hq
-  simp only [Bool.and_eq_true, Bool.not_eq_true'] at hq
-  have hcp : s.clearPending = false := hq.1.2
+  have hcp : s.clearPending = false := quiet_clear cfg s hq
   cases ha : s.hActive with
   | false => rfl
   | true =>
@@ -247,7 +282,7 @@ theorem quiet_done_inactive (cfg : Cfg) (kinds : List Bool) (s : St) (hr : Reach
 /-- gated: from a quiescent state in which the host has completed every run leaves the state as it is (events are
 not forwarded, nothing else is enabled) -/
 theorem inert_no_reaction (cfg : Cfg) (hg : cfg.gated = true) (kinds : List Bool) (s : St) (hr : Reach cfg kinds s)
-    (hq : quiet s = true) (hd : s.req = .done) (tr : List Label) (s' : St) (hrun : run cfg s tr = some s') : s' = s := by
+    (hq : quiet cfg s = true) (hd : s.req = .done) (tr : List Label) (s' : St) (hrun : run cfg s tr = some s') : s' = s := by
   have hin := quiet_done_inactive cfg kinds s hr hq hd
   induction tr with
   | nil => simp [run] at hrun; exact hrun.symm
@@ -268,27 +303,27 @@ theorem inert_no_reaction (cfg : Cfg) (hg : cfg.gated = true) (kinds : List Bool
     · rw [h] at hrun; simp at hrun
     · rw [h] at hrun; simp only [Option.bind_some] at hrun; exact ih hrun
 
-def ungatedRun : List Label :=
-  [.activate, .harnessActive, .harnessCall, .taskTake, .reqStart, .arm 0, .answer, .respond, .forward, .hostTake, .clear, .decrement]
+def ungatedRun (cfg : Cfg) : List Label :=
+  .activate :: activation cfg ++ [.taskTake, .reqStart, .arm 0, .answer, .respond, .forward, .hostTake, .clear, .decrement]
 
 def ungatedCheck (cfg : Cfg) : Bool :=
-  match run cfg (init [false]) ungatedRun with
-  | some s => quiet s && s.req == .done &&
+  match run cfg (init [false]) (ungatedRun cfg) with
+  | some s => quiet cfg s && s.req == .done &&
       (match run cfg s [.deliver 0, .catchTake 0, .transform 0, .move 0] with
        | some s' => contsAt s' 0 == 1 && contsAt s 0 == 0
        | none => false)
   | none => false
 
 theorem ungatedCheck_all : ∀ cfg : Cfg, cfg.gated = false → ungatedCheck cfg = true := by
-  intro ⟨g, o, r, sh⟩ h
-  cases g <;> cases o <;> cases r <;> cases sh <;> first | decide | (simp at h)
+  intro ⟨g, o, r, sh, e⟩ h
+  cases g <;> cases o <;> cases r <;> cases sh <;> cases e <;> first | decide | (simp at h)
 
 /-- not gated: an event delivered after the host completed continues the exception flow -/
 theorem C10_counterexample_ungated (cfg : Cfg) (hg : cfg.gated = false) : ¬ boundary_inert_after_completion cfg := by
   intro h
   have hc := ungatedCheck_all cfg hg
   unfold ungatedCheck at hc
-  cases h1 : run cfg (init [false]) ungatedRun with
+  cases h1 : run cfg (init [false]) (ungatedRun cfg) with
   | none => simp [h1] at hc
   | some s =>
     simp only [h1, Bool.and_eq_true, beq_iff_eq] at hc
@@ -304,17 +339,17 @@ theorem C10_counterexample_ungated (cfg : Cfg) (hg : cfg.gated = false) : ¬ bou
 theorem inert_wg_unshared (cfg : Cfg) (hs : cfg.share = false) (s : St) : wgListeners cfg s = 0 := by
   simp [wgListeners, hs]
 
-def d8run : List Label :=
-  [.activate, .harnessActive, .harnessCall, .taskTake, .reqStart, .arm 0, .answer, .respond, .forward, .hostTake, .clear, .decrement]
+def d8run (cfg : Cfg) : List Label :=
+  .activate :: activation cfg ++ [.taskTake, .reqStart, .arm 0, .answer, .respond, .forward, .hostTake, .clear, .decrement]
 
 def d8check (cfg : Cfg) : Bool :=
-  match run cfg (init [false]) d8run with
-  | some s => quiet s && s.req == .done && wgListeners cfg s == 1 && !canComplete cfg s
+  match run cfg (init [false]) (d8run cfg) with
+  | some s => quiet cfg s && s.req == .done && wgListeners cfg s == 1 && !canComplete cfg s
   | none => false
 
 theorem d8check_all : ∀ cfg : Cfg, cfg.share = true → d8check cfg = true := by
-  intro ⟨g, o, r, sh⟩ h
-  cases g <;> cases o <;> cases r <;> cases sh <;> first | decide | (simp at h)
+  intro ⟨g, o, r, sh, e⟩ h
+  cases g <;> cases o <;> cases r <;> cases sh <;> cases e <;> first | decide | (simp at h)
 
 /-- D8: the listener flows share the instance wait group: a boundary event that never fired keeps a token alive
 after the host completed, and the instance cannot complete -/
@@ -322,7 +357,7 @@ theorem C10_counterexample_armed_listener (cfg : Cfg) (hs : cfg.share = true) : 
   intro h
   have hc := d8check_all cfg hs
   unfold d8check at hc
-  cases h1 : run cfg (init [false]) d8run with
+  cases h1 : run cfg (init [false]) (d8run cfg) with
   | none => simp [h1] at hc
   | some s =>
     simp only [h1, Bool.and_eq_true, beq_iff_eq] at hc
@@ -332,7 +367,7 @@ theorem C10_counterexample_armed_listener (cfg : Cfg) (hs : cfg.share = true) : 
 /-- the exact excluding hypothesis for D8: with the shared wait group the listeners contribute nothing at quiescence
 iff none of them is still armed (every boundary event has fired) -/
 theorem inert_partial (cfg : Cfg) (hc : cfg.once = true) (kinds : List Bool) (s : St) (hr : Reach cfg kinds s)
-    (hq : quiet s = true) (hf : ∀ l ∈ s.ls, l.phase ≠ .armed) : wgListeners cfg s = 0 := by
+    (hq : quiet cfg s = true) (hf : ∀ l ∈ s.ls, l.phase ≠ .armed) : wgListeners cfg s = 0 := by
   unfold wgListeners
   split
   · rw [List.length_eq_zero_iff, List.filter_eq_nil_iff]
@@ -353,30 +388,30 @@ theorem armed_listener_counts (cfg : Cfg) (hs : cfg.share = true) (s : St) (l : 
 
 /-! ## The once -/
 
-def noOnceRun : List Label :=
-  [.activate, .harnessActive, .harnessCall, .taskTake, .reqStart, .arm 0, .arm 1, .answer, .respond, .decrement, .deliver 0, .deliver 1,
+def noOnceRun (cfg : Cfg) : List Label :=
+  .activate :: activation cfg ++ [.taskTake, .reqStart, .arm 0, .arm 1, .answer, .respond, .decrement, .deliver 0, .deliver 1,
    .catchTake 0, .catchTake 1, .transform 0, .taskTake, .move 0, .transform 1, .forward, .clear, .hostTake]
 
 def noOnceCheck (cfg : Cfg) : Bool :=
-  match run cfg (init [true, true]) noOnceRun with
-  | some s => quiet s && (match s.ls[1]? with
+  match run cfg (init [true, true]) (noOnceRun cfg) with
+  | some s => quiet cfg s && (match s.ls[1]? with
       | some l => l.phase == .cancelling && l.conts == 0 && l.got == 1 && l.dropped == 0
       | none => false)
   | none => false
 
 theorem noOnceCheck_all : ∀ cfg : Cfg, cfg.once = false → noOnceCheck cfg = true := by
-  intro ⟨g, o, r, sh⟩ h
-  cases g <;> cases o <;> cases r <;> cases sh <;> first | decide | (simp at h)
+  intro ⟨g, o, r, sh, e⟩ h
+  cases g <;> cases o <;> cases r <;> cases sh <;> cases e <;> first | decide | (simp at h)
 
 /-- without the once: two interrupting boundary events fire while the answer races them; the first cancel is accepted
 (the request goroutine has already left the counter), the activity's run loop exits, and the second listener waits
 forever for a verdict: its event was matched and its exception flow never continues -/
 theorem C10_counterexample_no_once (cfg : Cfg) (ho : cfg.once = false) :
-    ∃ (s : St) (l : Listener), Reach cfg [true, true] s ∧ quiet s = true ∧ s.ls[1]? = some l ∧
+    ∃ (s : St) (l : Listener), Reach cfg [true, true] s ∧ quiet cfg s = true ∧ s.ls[1]? = some l ∧
       l.phase = .cancelling ∧ l.conts = 0 ∧ l.got = 1 ∧ l.dropped = 0 := by
   have hc := noOnceCheck_all cfg ho
   unfold noOnceCheck at hc
-  cases h1 : run cfg (init [true, true]) noOnceRun with
+  cases h1 : run cfg (init [true, true]) (noOnceRun cfg) with
   | none => simp [h1] at hc
   | some s =>
     simp only [h1, Bool.and_eq_true] at hc
@@ -388,28 +423,33 @@ theorem C10_counterexample_no_once (cfg : Cfg) (ho : cfg.once = false) :
 
 /-! ## An interrupting event between the harness's `active := 1` and the activity's first message -/
 
-def strandRun : List Label :=
-  [.activate, .harnessActive, .arm 0, .deliver 0, .catchTake 0, .transform 0, .harnessCall, .taskTake, .move 0]
+/-- the witness: with `active := 1` first, the event arrives between the two statements; without the gate it may
+arrive before both -/
+def strandRun (cfg : Cfg) : List Label :=
+  if cfg.early then
+    [.activate, .harnessActive, .arm 0, .deliver 0, .catchTake 0, .transform 0, .harnessCall, .taskTake, .move 0]
+  else
+    [.activate, .arm 0, .deliver 0, .catchTake 0, .transform 0, .harnessCall, .taskTake, .move 0, .harnessActive]
 
 def strandCheck (cfg : Cfg) : Bool :=
-  match run cfg (init [true]) strandRun with
-  | some s => quiet s && s.req == .atTask && !s.tRun && s.hreqs == 0 && contsAt s 0 == 1 && s.verdicts == [true]
+  match run cfg (init [true]) (strandRun cfg) with
+  | some s => quiet cfg s && s.req == .atTask && !s.tRun && s.hreqs == 0 && contsAt s 0 == 1 && s.verdicts == [true]
   | none => false
 
-theorem strandCheck_all : ∀ cfg : Cfg, strandCheck cfg = true := by
-  intro ⟨g, o, r, sh⟩
-  cases g <;> cases o <;> cases r <;> cases sh <;> decide
+theorem strandCheck_all : ∀ cfg : Cfg, (cfg.early = true ∨ cfg.gated = false) → strandCheck cfg = true := by
+  intro ⟨g, o, r, sh, e⟩ h
+  cases g <;> cases o <;> cases r <;> cases sh <;> cases e <;> first | decide | (simp at h)
 
-/-- for every value of the facts: the harness is active before the activity has its first message; an interrupting
-event in that window puts the cancel message FIRST into the activity's inbox; the freshly started run loop finds no
-request counted, accepts, and exits; the next-action message is never handled: the activity is never executed, the
-host's token waits forever (the exception flow does continue) -/
-theorem C10_counterexample_cancel_before_request (cfg : Cfg) :
-    ∃ s : St, Reach cfg [true] s ∧ quiet s = true ∧ s.req = .atTask ∧ contsAt s 0 = 1 ∧
+/-- the harness is active before the activity has its first message (or events are not gated at all): an
+interrupting event in that window puts the cancel message FIRST into the activity's inbox; the freshly started run
+loop finds no request counted, accepts, and exits; the next-action message is never handled: the activity is never
+executed, the host's token waits forever (the exception flow does continue) -/
+theorem C10_counterexample_cancel_before_request (cfg : Cfg) (h : cfg.early = true ∨ cfg.gated = false) :
+    ∃ s : St, Reach cfg [true] s ∧ quiet cfg s = true ∧ s.req = .atTask ∧ contsAt s 0 = 1 ∧
       ∀ (tr : List Label) (s' : St), run cfg s tr = some s' → s'.req = .atTask ∧ s'.hreqs = 0 ∧ s'.normal = 0 := by
-  have hc := strandCheck_all cfg
+  have hc := strandCheck_all cfg h
   unfold strandCheck at hc
-  cases h1 : run cfg (init [true]) strandRun with
+  cases h1 : run cfg (init [true]) (strandRun cfg) with
   | none => simp [h1] at hc
   | some s =>
     simp only [h1, Bool.and_eq_true, beq_iff_eq, Bool.not_eq_true'] at hc
@@ -422,26 +462,63 @@ theorem C10_counterexample_cancel_before_request (cfg : Cfg) :
     obtain ⟨a, b, c⟩ := stranded_forever cfg tr s s' hrun hreq htr
     exact ⟨a, b.trans hh, c.trans hn⟩
 
-/-- the exact excluding hypothesis: at quiescence the host has not been reached, waits for its answer, or has
-completed — unless the activity's run loop exited on an ACCEPTED cancel with its first message still unhandled -/
-theorem host_requested_partial (cfg : Cfg) (kinds : List Bool) (s : St) (hr : Reach cfg kinds s) (hq : quiet s = true) :
+/-- the exact excluding hypothesis, for any facts: at quiescence the host has not been reached, waits for its
+answer, or has completed — unless the activity's run loop exited on an ACCEPTED cancel with its first message still
+unhandled -/
+theorem host_requested_partial (cfg : Cfg) (kinds : List Bool) (s : St) (hr : Reach cfg kinds s) (hq : quiet cfg s = true) :
     s.req = .none ∨ s.req = .pending ∨ s.req = .done ∨ (s.req = .atTask ∧ s.tRun = false ∧ true ∈ s.verdicts) := by
   have hri := reach_runinv hr
-  unfold quiet at hq
-  simp only [Bool.and_eq_true, Bool.not_eq_true', Bool.and_eq_false_iff, Bool.not_eq_false'] at hq
-  obtain ⟨⟨⟨⟨h1, h2⟩, _⟩, _⟩, _⟩ := hq
-  cases hreq : s.req <;> simp [hreq] at h1 ⊢
-  -- atTask
-  have hmem := hri.queued hreq
-  have hne : s.tq ≠ [] := by intro e; rw [e] at hmem; cases hmem
-  have ht : s.tRun = false := by
-    rcases h2 with h | h
+  have g := reach_ginv hr
+  obtain ⟨q1, q2, q3⟩ := quiet_req cfg s hq
+  cases hreq : s.req with
+  | none => exact Or.inl rfl
+  | pending => exact Or.inr (Or.inl rfl)
+  | done => exact Or.inr (Or.inr (Or.inl rfl))
+  | spawned => exact absurd hreq q1
+  | answered => exact absurd hreq q2
+  | forwarded => exact absurd hreq q3
+  | responded =>
+    exfalso
+    have := answered_then_normal cfg kinds s hr hq (by rw [hreq]; simp [Req.rank])
+    have hn := g.normal
+    rw [hreq] at hn; simp at hn; omega
+  | atHarness =>
+    exfalso
+    have h1 := quiet_no_internal cfg s hq .harnessActive rfl
+    have h2 := quiet_no_internal cfg s hq .harnessCall rfl
+    have h3 := g.stage2
+    have h4 : s.hStage ≠ 2 := by
+      intro h
+      have := g.stage4 h
+      rw [hreq] at this; simp [Req.rank] at this
+    simp only [step, hreq] at h1 h2
+    have : s.hStage = 0 ∨ s.hStage = 1 := by omega
+    cases he : cfg.early <;> rcases this with h | h <;> simp [h, he] at h1 h2
+  | atTask =>
+    right; right; right
+    have hmem := hri.queued hreq
+    have hne : s.tq ≠ [] := by intro e; rw [e] at hmem; cases hmem
+    have ht : s.tRun = false := by
+      rcases quiet_tq cfg s hq with h | h
+      · exact h
+      · exact absurd h hne
+    refine ⟨rfl, ht, ?_⟩
+    rcases hri.exited ht with h | h
+    · rw [hreq] at h; simp [Req.rank] at h
     · exact h
-    · exact absurd (List.isEmpty_iff.mp h) hne
-  refine ⟨ht, ?_⟩
-  rcases hri.exited ht with h | h
-  · rw [hreq] at h; simp [Req.rank] at h
-  · exact h
+
+/-- the other side of the dichotomy: with `activity.NextAction` called BEFORE `active := 1` and events gated by
+`active`, the activity's first message is always first in its inbox: at quiescence the host is unreached, waits for
+its answer, or has completed, on every schedule -/
+theorem host_always_requested (cfg : Cfg) (he : cfg.early = false) (hg : cfg.gated = true) (kinds : List Bool) (s : St)
+    (hr : Reach cfg kinds s) (hq : quiet cfg s = true) : s.req = .none ∨ s.req = .pending ∨ s.req = .done := by
+  rcases host_requested_partial cfg kinds s hr hq with h | h | h | ⟨h, ht, _⟩
+  · exact Or.inl h
+  · exact Or.inr (Or.inl h)
+  · exact Or.inr (Or.inr h)
+  · exfalso
+    have := ((reach_late he hg hr).first h).1
+    rw [ht] at this; cases this
 
 /-! ## Summary -/
 
@@ -459,10 +536,10 @@ theorem C10_fails (cfg : Cfg) : ¬ C10_statement cfg := fun h => C10_counterexam
 def C10_partial_statement (cfg : Cfg) : Prop :=
   (∀ (kinds : List Bool) (s1 : St) (i : Nat) (l : Listener), Reach cfg kinds s1 → s1.ls[i]? = some l →
       l.phase = .armed → 0 < l.inbox → ∀ (tr : List Label) (s2 : St), run cfg s1 (.catchTake i :: tr) = some s2 →
-      contsAt s2 i ≤ 1 ∧ (quiet s2 = true → contsAt s2 i = 1)) ∧
-  (∀ (kinds : List Bool) (s : St), Reach cfg kinds s → quiet s = true →
+      contsAt s2 i ≤ 1 ∧ (quiet cfg s2 = true → contsAt s2 i = 1)) ∧
+  (∀ (kinds : List Bool) (s : St), Reach cfg kinds s → quiet cfg s = true →
       (∀ l ∈ s.ls, l.conts + l.dropped = l.got) ∧ (Req.answered.rank ≤ s.req.rank → s.normal = 1)) ∧
-  (∀ (kinds : List Bool) (s : St), Reach cfg kinds s → quiet s = true → s.req = .done →
+  (∀ (kinds : List Bool) (s : St), Reach cfg kinds s → quiet cfg s = true → s.req = .done →
       (∀ (tr : List Label) (s' : St), run cfg s tr = some s' → s' = s) ∧
       ((∀ l ∈ s.ls, l.phase ≠ .armed) → wgListeners cfg s = 0))
 
@@ -474,39 +551,39 @@ theorem C10_partial (cfg : Cfg) (ho : cfg.once = true) (hg : cfg.gated = true) :
 
 /-! ## Non-vacuity: the hypotheses of the implications above are met by concrete reachable states -/
 
-def exPre : St := (run Cfg.code (init [true]) d7pre).getD (init [])
+def exPre : St := (run Cfg.code (init [true]) (d7pre Cfg.code)).getD (init [])
 def exPost : St := (run Cfg.code exPre (.catchTake 0 :: d7post)).getD (init [])
 
 /-- `interrupting_partial`, `boundary_interrupting`: a reachable state in which the host waits for its answer and an
 armed interrupting listener has an event in its inbox; the run continues to a quiescent state -/
 example : Reach Cfg.code [true] exPre ∧ exPre.req = .pending ∧
     exPre.ls[0]? = some { interrupting := true, phase := .armed, inbox := 1, got := 1 } ∧
-    run Cfg.code exPre (.catchTake 0 :: d7post) = some exPost ∧ quiet exPost = true ∧
+    run Cfg.code exPre (.catchTake 0 :: d7post) = some exPost ∧ quiet Cfg.code exPost = true ∧
     contsAt exPost 0 = 1 ∧ exPost.normal = 1 :=
-  ⟨reach_of_run (tr := d7pre) (by decide), by decide, by decide, by decide, by decide, by decide, by decide⟩
+  ⟨reach_of_run (tr := d7pre Cfg.code) (by decide), by decide, by decide, by decide, by decide, by decide, by decide⟩
 
 def exOne : St := (run Cfg.code (init [false]) [.activate, .harnessActive, .harnessCall, .taskTake, .reqStart, .arm 0, .deliver 0,
   .catchTake 0, .transform 0, .move 0, .answer, .respond, .forward, .hostTake, .clear, .decrement]).getD (init [])
 
 /-- `non_interrupting_partial` with nothing dropped: one event, one continuation, the normal flow after the answer,
 and (every listener fired) the instance can complete -/
-example : Reach Cfg.code [false] exOne ∧ quiet exOne = true ∧
+example : Reach Cfg.code [false] exOne ∧ quiet Cfg.code exOne = true ∧
     exOne.ls[0]? = some { interrupting := false, phase := .moved, got := 1, conts := 1 } ∧
     exOne.normal = 1 ∧ canComplete Cfg.code exOne = true :=
   ⟨reach_of_run (tr := [.activate, .harnessActive, .harnessCall, .taskTake, .reqStart, .arm 0, .deliver 0, .catchTake 0,
       .transform 0, .move 0, .answer, .respond, .forward, .hostTake, .clear, .decrement]) (by decide),
    by decide, by decide, by decide, by decide⟩
 
-def exDone : St := (run Cfg.code (init [false]) d8run).getD (init [])
+def exDone : St := (run Cfg.code (init [false]) (d8run Cfg.code)).getD (init [])
 
 /-- `inert_no_reaction`, `inert_partial`: a reachable quiescent state in which the host has completed (a delivery is
 accepted by `step` and changes nothing) -/
-example : Reach Cfg.code [false] exDone ∧ quiet exDone = true ∧ exDone.req = .done ∧
+example : Reach Cfg.code [false] exDone ∧ quiet Cfg.code exDone = true ∧ exDone.req = .done ∧
     step Cfg.code exDone (.deliver 0) = some exDone :=
-  ⟨reach_of_run (tr := d8run) (by decide), by decide, by decide, by decide⟩
+  ⟨reach_of_run (tr := d8run Cfg.code) (by decide), by decide, by decide, by decide⟩
 
 /-- `exception_progress`, `answered_then_normal`: see the two examples above (quiescent, answered). The cancel in the
 D7 witness is REFUSED by the code's facts: -/
-example : ((run Cfg.code (init [true]) (d7pre ++ .catchTake 0 :: d7post)).map (·.verdicts)) = some [false] := by decide
+example : ((run Cfg.code (init [true]) (d7pre Cfg.code ++ .catchTake 0 :: d7post)).map (·.verdicts)) = some [false] := by decide
 
 end Bpmn.Props.C10
